@@ -782,7 +782,20 @@ func parseMsgIDList(s string) ([]string, error) {
 	return h.MsgIDList("In-Reply-To")
 }
 
+// maxBodyDepth limits how deep body structures can be nested (multipart
+// children and the bodies of message/rfc822 parts), to prevent unbounded
+// recursion.
+const maxBodyDepth = 1000
+
 func readBody(dec *imapwire.Decoder, options *Options) (imap.BodyStructure, error) {
+	return readNestedBody(dec, options, 0)
+}
+
+func readNestedBody(dec *imapwire.Decoder, options *Options, depth int) (imap.BodyStructure, error) {
+	if depth >= maxBodyDepth {
+		return nil, fmt.Errorf("imapclient: body structure exceeded max depth")
+	}
+
 	if !dec.ExpectSpecial('(') {
 		return nil, dec.Err()
 	}
@@ -795,10 +808,10 @@ func readBody(dec *imapwire.Decoder, options *Options) (imap.BodyStructure, erro
 	)
 	if dec.String(&mediaType) {
 		token = "body-type-1part"
-		bs, err = readBodyType1part(dec, mediaType, options)
+		bs, err = readBodyType1part(dec, mediaType, options, depth)
 	} else {
 		token = "body-type-mpart"
-		bs, err = readBodyTypeMpart(dec, options)
+		bs, err = readBodyTypeMpart(dec, options, depth)
 	}
 	if err != nil {
 		return nil, fmt.Errorf("in %v: %v", token, err)
@@ -817,7 +830,7 @@ func readBody(dec *imapwire.Decoder, options *Options) (imap.BodyStructure, erro
 	return bs, nil
 }
 
-func readBodyType1part(dec *imapwire.Decoder, typ string, options *Options) (*imap.BodyStructureSinglePart, error) {
+func readBodyType1part(dec *imapwire.Decoder, typ string, options *Options, depth int) (*imap.BodyStructureSinglePart, error) {
 	bs := imap.BodyStructureSinglePart{Type: typ}
 
 	if !dec.ExpectSP() || !dec.ExpectString(&bs.Subtype) || !dec.ExpectSP() {
@@ -862,7 +875,7 @@ func readBodyType1part(dec *imapwire.Decoder, typ string, options *Options) (*im
 			return nil, dec.Err()
 		}
 
-		msg.BodyStructure, err = readBody(dec, options)
+		msg.BodyStructure, err = readNestedBody(dec, options, depth+1)
 		if err != nil {
 			return nil, err
 		}
@@ -935,11 +948,11 @@ func readBodyExt1part(dec *imapwire.Decoder, options *Options) (*imap.BodyStruct
 	return &ext, nil
 }
 
-func readBodyTypeMpart(dec *imapwire.Decoder, options *Options) (*imap.BodyStructureMultiPart, error) {
+func readBodyTypeMpart(dec *imapwire.Decoder, options *Options, depth int) (*imap.BodyStructureMultiPart, error) {
 	var bs imap.BodyStructureMultiPart
 
 	for {
-		child, err := readBody(dec, options)
+		child, err := readNestedBody(dec, options, depth+1)
 		if err != nil {
 			return nil, err
 		}
